@@ -195,6 +195,16 @@ theorem outs_single (T : Tables) (l : List TxOut) (i ht : Nat) (hb : ht &&& 0x1f
 
 /-! ### the last steps of the model -/
 
+/-- `to_bytes(False)` as a function of the four fields it reads -/
+def serNoWit (T : Tables) (v : Bytes) (ins : List TxIn) (outs : List TxOut) (lt : Bytes) : Except PyErr Bytes := do
+  let i ← concatM (ins.map (TxIn.toBytes T))
+  let o ← concatM (outs.map (TxOut.toBytes T))
+  pure (v ++ [] ++ compactSize ins.length ++ i ++ compactSize outs.length ++ o ++ [] ++ lt)
+
+/-- without the witness section the serialisation ignores `hasSegwit` and `witnesses` -/
+theorem toBytes_false (T : Tables) (t : Tx) :
+    t.toBytes T false = serNoWit T t.version t.inputs t.outputs t.locktime := rfl
+
 theorem finish (sha256 : Bytes → Bytes) (T : Tables) (t : Tx) (ins3 : List TxIn) (outs : List TxOut)
     (insB outsB : Bytes) (ht : Nat) (hht : ht < 256)
     (h1 : concatM (ins3.map (TxIn.toBytes T)) = .ok insB)
